@@ -313,6 +313,17 @@ OPS = {
     "roll": lambda t, a, b: t.roll(a % 3, _dim(t, b)),
     "repeat": lambda t, a, b: t.repeat(*([2] * t.ndim)),
 }
+# in-place operations (the results stay within 2 bits): afterwards the PACKED tensor itself holds the new values
+INPLACE_OPS = {
+    "zero_": lambda t, a, b: t.zero_(),
+    "fill_": lambda t, a, b: t.fill_(a % 4),
+    "and_": lambda t, a, b: t.bitwise_and_(a % 4),
+    "iand": lambda t, a, b: t.__iand__(b % 4),
+    "copy_": lambda t, a, b: t.copy_(torch.full_like(t if not isinstance(t, PackedTensor) else t.unpack(), a % 4)),
+    "masked_fill_": lambda t, a, b: t.masked_fill_((t if not isinstance(t, PackedTensor) else t.unpack()) > (a % 3), b % 4),
+    "setitem": lambda t, a, b: t.__setitem__(0, a % 4) or t,
+}
+OPS.update(INPLACE_OPS)
 OPNAMES = sorted(OPS)
 
 
@@ -335,7 +346,8 @@ def exec_ops(case):
     out = Outcome()
     t = value_tensor(case)
     op = OPS[case["op"]]
-    ref = cut(op, t.clone() if False else t, case["a"], case["b"])
+    inplace = case["op"] in INPLACE_OPS
+    ref = cut(op, t.clone() if inplace else t, case["a"], case["b"])
     if isinstance(ref, Raised):
         out.discard = True  # the plain-tensor program itself is invalid
         return out
@@ -353,6 +365,12 @@ def exec_ops(case):
                 out.fail(f"{tag}/value", f"op(packed) != op(unpacked) for shape {list(t.shape)} bits {case['bits']}")
         elif res != ref:
             out.fail(f"{tag}/value", f"{res!r} != {ref!r}")
+        if inplace:
+            # the packed tensor itself now holds the result
+            now = cut(p.unpack)
+            if isinstance(now, Raised) or not torch.equal(now, ref):
+                out.fail(f"{tag}/not-applied", f"after the in-place operation the packed tensor does not hold the result (shape {list(t.shape)}, bits {case['bits']})")
+            return out
         # the packed operand must not have been modified by a functional op
         if not torch.equal(p.unpack(), t):
             out.fail(f"{tag}/operand-changed", "functional op modified the packed operand")
